@@ -12,6 +12,7 @@ def run(ctx):
     gr.rule_dates_writer(ctx, g, "R02.6")
     gr.rule_writer_content(ctx, g, "R02.7")
     gr.rule_emission_purity(ctx, g, "R02.8")
+    gr.rule_string_padding(ctx, g, "R02.5s")
     gr.rule_writer_placement(ctx, g, "R02.9")
     ctx.assume("the oracle rules/oracle/gdsii.json is a faithful transcription of the GDSII Stream Format manual")
     ctx.assume("the bit patterns of reals (GdsFloat64::encode) are value-level and not decided here (C15)")
